@@ -49,6 +49,7 @@ type hostile struct {
 	MaxAllocs int64  `json:"max_allocs,omitempty"` // 0 = unlimited
 	Det       bool   `json:"det,omitempty"`        // outcome is deterministic (no map order, no timing)
 	Label     string `json:"label,omitempty"`      // known way of ending: ok | err | panic | ctx
+	Clone     bool   `json:"clone,omitempty"`      // also Clone() the object after its runs and run the clone (acyclic globals only: O9)
 }
 
 // childResult is what the child reports for one program.
@@ -249,6 +250,31 @@ func runOne(h hostile) (r childResult, stuck bool) {
 		if esc != "" {
 			r.Escaped = "RunContext with an already cancelled context: " + esc
 			return r, false
+		}
+	}
+	// "remains usable": a Compiled that was run can be cloned and the clone run (the globals now hold whatever the
+	// script left there: closures, copies of closures, …)
+	if h.Clone {
+		var err error
+		esc, hung := guarded(func() {
+			cl := c.Clone()
+			ctx, cancel := context.WithTimeout(context.Background(), timeout)
+			defer cancel()
+			err = cl.RunContext(ctx)
+			for _, v := range cl.GetAll() {
+				_ = v.ValueType()
+			}
+		})
+		if hung {
+			r.Hang = "Clone after RunContext, RunContext of the clone"
+			return r, true
+		}
+		if esc != "" {
+			r.Escaped = "Clone after RunContext: " + esc
+			return r, false
+		}
+		if h.Det && r.Misbehave == "" && r.Class1 != "ctx" && classOf(err) != "ctx" && classOf(err) != r.Class1 {
+			r.Misbehave = fmt.Sprintf("RunContext of a clone returned %q, the original %q", errText(err), r.Err1)
 		}
 	}
 	if h.Det && r.Misbehave == "" && r.Class1 != "ctx" && r.Class2 != "ctx" && (r.Class1 != r.Class2 || r.Err1 != r.Err2) {
